@@ -84,6 +84,16 @@ Theorem C02_closing_receiver_ends_on_ack : forall FS fs_write_file fs_exec resp_
   r_state (fst (process_pdu FS fs_write_file fs_exec resp_fail not_performed cksum now (PAck a) s)) = TTerminated.
 Proof. exact receiver_ends_on_ack_finished. Qed.
 
+(* lost Metadata: the receiver asks with the 0-0 request (C08); it survives the sender's request
+   splitting as the marker, and the marker is answered with the Metadata PDU itself *)
+Theorem C02_metadata_marker_kept : forall seg fsize, split_request seg fsize (0, 0) = [(0, 0)].
+Proof. exact metadata_marker_kept. Qed.
+Theorem C02_metadata_retransmitted_on_marker : forall resp_len req_len now t (s : sstate),
+  s_naks s = (0, 0) :: t ->
+  let s' := fst (send_missing_data resp_len req_len now s) in
+  (exists p, s_out s' = OPdu p :: s_out s /\ o_payload p = PMetadata (s_meta s)) /\ s_naks s' = t.
+Proof. exact metadata_retransmitted_on_marker. Qed.
+
 Print Assumptions C02_one_clean_round_suffices.
 Print Assumptions C02_any_order_any_duplication.
 Print Assumptions C02_pieces_cover_request.
@@ -92,3 +102,5 @@ Print Assumptions C02_timer_gives_up_only_at_limit.
 Print Assumptions C02_closing_receiver_completes.
 Print Assumptions C02_closing_sender_acks_and_ends.
 Print Assumptions C02_closing_receiver_ends_on_ack.
+Print Assumptions C02_metadata_marker_kept.
+Print Assumptions C02_metadata_retransmitted_on_marker.
